@@ -305,6 +305,12 @@ def _regex_table(node: ast.expr, name: str, domain: list[str]) -> tuple[str, lis
         """The characters of `sel` for which the test on the comprehension variable is true."""
         if isinstance(t, ast.UnaryOp) and isinstance(t.op, ast.Not):
             return sel - test_set(t.operand, sel)
+        if isinstance(t, ast.BoolOp):
+            parts = [test_set(v_, sel) for v_ in t.values]
+            out = parts[0]
+            for p_ in parts[1:]:
+                out = (out & p_) if isinstance(t.op, ast.And) else (out | p_)
+            return out
         if isinstance(t, ast.Compare) and len(t.ops) == 1 and isinstance(t.left, ast.Name) and t.left.id == v:
             op, rhs = t.ops[0], t.comparators[0]
             if isinstance(op, (ast.Eq, ast.NotEq)) and isinstance(rhs, ast.Constant) and isinstance(rhs.value, str):
@@ -583,6 +589,56 @@ _BUILTINS_OK = {'str', 'len', 'bool', 'int', 'isinstance', 'None', 'True', 'Fals
                 'tuple', 'frozenset', 'range', 'enumerate', 'zip', 'map', 'filter', 'repr', 'KeyError', 'LookupError', 'TypeError', 'ValueError'}
 
 
+def funcs_line(tree: ast.Module, name: str) -> int | None:
+    """co_firstlineno of the function `_func` finds: the line of its first decorator, else of the `def`."""
+    try:
+        f = _func(tree, name)
+    except TranslateError:
+        return None
+    return min([f.lineno] + [d.lineno for d in f.decorator_list])
+
+
+def module_level_bindings(tree: ast.Module, name: str) -> list[int]:
+    """Line numbers of the statements that bind `name` at module level (def / class / assignment / import / for / with, also inside
+    module-level if / try / with / for blocks; function and class bodies are not entered)."""
+    out: list[int] = []
+
+    def names(t: ast.AST) -> set[str]:
+        return {x.id for x in ast.walk(t) if isinstance(x, ast.Name)}
+
+    def block(stmts: list[ast.stmt]) -> None:
+        for st in stmts:
+            if isinstance(st, (ast.FunctionDef, ast.AsyncFunctionDef, ast.ClassDef)):
+                if st.name == name:
+                    out.append(st.lineno)
+                continue
+            if isinstance(st, ast.Assign) and any(name in names(t) for t in st.targets if isinstance(t, (ast.Name, ast.Tuple, ast.List))):
+                out.append(st.lineno)
+            elif isinstance(st, (ast.AnnAssign, ast.AugAssign)) and isinstance(st.target, ast.Name) and st.target.id == name \
+                    and (not isinstance(st, ast.AnnAssign) or st.value is not None):
+                out.append(st.lineno)
+            elif isinstance(st, (ast.Import, ast.ImportFrom)) and any((a.asname or a.name).split('.')[0] == name for a in st.names):
+                out.append(st.lineno)
+            elif isinstance(st, ast.Delete) and any(name in names(t) for t in st.targets):
+                out.append(st.lineno)
+            for x in ast.walk(st) if not isinstance(st, (ast.If, ast.Try, ast.With, ast.For, ast.While)) else []:
+                if isinstance(x, ast.NamedExpr) and x.target.id == name:
+                    out.append(st.lineno)
+            if isinstance(st, (ast.For, ast.AsyncFor)) and name in names(st.target):
+                out.append(st.lineno)
+            if isinstance(st, (ast.With, ast.AsyncWith)) and any(i.optional_vars is not None and name in names(i.optional_vars) for i in st.items):
+                out.append(st.lineno)
+            for fld in ('body', 'orelse', 'finalbody'):
+                sub = getattr(st, fld, None)
+                if isinstance(sub, list) and sub and isinstance(sub[0], ast.stmt):
+                    block(sub)
+            for h in getattr(st, 'handlers', []) or []:
+                block(h.body)
+
+    block(tree.body)
+    return out
+
+
 def escape_text_census(tree: ast.Module) -> list[str]:
     """`escape_text` uses no state that outlives the call: the premise of modelling it as a FUNCTION of (text, multiline).
     Looked at: `escape_text` and every module-level function it mentions (the substitution callback, helpers), transitively.
@@ -595,6 +651,10 @@ def escape_text_census(tree: ast.Module) -> list[str]:
       at module level to a literal constant, to a `re.compile(...)` / pure expression of literals and of the escape tables, and
       the escape tables themselves (their immutability is the tokenizer census' `table_mutation`); a name bound to a set / dict /
       list display or constructor call, bound twice, or not bound at module level at all is listed;
+    * one of these functions is bound more than once at module level (a later `def` / assignment / wrapper such as
+      `escape_text = memoise(escape_text)` replaces what the translator reads; the selection of the Cython version at the bottom of
+      the module goes through `globals()` and only happens when the extension module exists - the check compares the objects at run
+      time: `public_names_are_the_checked_objects`);
     * calling a method outside a list of non-mutating ones on a module-level name (`_SEEN.add(text)`), storing into / deleting an
       attribute or item of anything that is not a local (`_CACHE[text] = r`, `escape_text.last = r`), reading an attribute of
       one of the functions themselves."""
@@ -653,6 +713,9 @@ def escape_text_census(tree: ast.Module) -> list[str]:
             continue
         seen.add(fn)
         f = funcs[fn]
+        where = module_level_bindings(tree, fn)
+        if len(where) != 1:
+            out.append(f'{fn}: bound {len(where)} times at module level (lines {where}): the function the translator reads is not necessarily the one callers get')
         if f.decorator_list:
             out.append(f'{fn}:{f.lineno}: decorated with `{ast.unparse(f.decorator_list[0])[:40]}`')
         a = f.args
@@ -853,7 +916,7 @@ def translate(sample=None) -> tuple[str, dict]:
     side.update(escapes=[[chr(s), chr(c)] for s, c in esc_table], esc_prefix=prefix,
                 escape_pipeline=[{'when': ['always', 'multiline', 'not multiline'][c], 'kind': k, 'a': a, 'b': (ord(b) if k == 'subn' else b)} for c, k, a, b in pipeline],
                 regexes={k: {'excluded': v[0], 'lookaheads': [list(p_) for p_ in v[1]]} for k, v in regs.items()},
-                escape_text_failed_closed=pipeline_error, escape_text_fallback=fallback, escape_text_state=state,
+                escape_text_line=funcs_line(tree, 'escape_text'), escape_text_failed_closed=pipeline_error, escape_text_fallback=fallback, escape_text_state=state,
                 bare_disallowed=''.join(chr(c) for c in bare), operators={chr(k): v for k, v in ops.items()},
                 token_values=tok_vals, has_value=has_value, option_defaults=defaults, digests=digests,
                 casefold_entries=len(cf), pyx_twin=_scan_pyx())
